@@ -1094,3 +1094,46 @@ def data_field_truthiness(ctx: Ctx, rule: str, short: str, cname: str, value_exp
         ctx.violated(rule, f"{short}::{cname}.{member} [{text}]", f"truth test of {val}", "`is None` / `is not None`", "a value of exactly 0 (a mean of 0.0, a count of 0) is falsy: it is reported as absent / NaN")
     if not hits:
         ctx.held(rule, f"{short}::{cname}", f"{n} members; none of {targets} is tested for truth", "", "positive control recognised")
+
+
+# --------------------------------------------------------------------------- attributes produced by a lazyproperty factory
+def shared_cache_slots(ctx: Ctx, rule: str, short: str, cname: str, names):
+    """`lazyproperty` caches under the `__name__` of the function it wraps.  Attributes PRODUCED by a factory
+    (`pvalues = _alias("pvals")`, the factory returning `lazyproperty(inner)`) all wrap a function of the same name: they
+    share one slot of the instance __dict__, and whichever is read first is what the others return (`pvalues` hands out the
+    count matrix after `weighted_counts` was read).  Reported for this property's attributes `names` only."""
+    ci = ctx.repo.cls(short, cname)
+    mod = ci.module
+    groups = {}
+    n = 0
+    for c in ci.mro:
+        if c.module is not mod:
+            continue
+        for st in c.node.body:
+            if not (isinstance(st, ast.Assign) and len(st.targets) == 1 and isinstance(st.targets[0], ast.Name) and isinstance(st.value, ast.Call)):
+                continue
+            n += 1
+            f = u(st.value.func)
+            inner = None
+            if f.split(".")[-1] == "lazyproperty" and st.value.args:
+                a = st.value.args[0]
+                inner = a.id if isinstance(a, ast.Name) else ("<lambda>" if isinstance(a, ast.Lambda) else u(a)[:30])
+            elif f in mod.functions:
+                for r in ast.walk(mod.functions[f]):
+                    if isinstance(r, ast.Return) and isinstance(r.value, ast.Call) and u(r.value.func).split(".")[-1] == "lazyproperty" and r.value.args:
+                        a = r.value.args[0]
+                        inner = a.id if isinstance(a, ast.Name) else ("<lambda>" if isinstance(a, ast.Lambda) else None)
+                        # a factory that renames the wrapped function per attribute (`inner.__name__ = name`) gives each its own slot
+                        if any(isinstance(x, ast.Attribute) and x.attr in ("__name__", "__qualname__") and isinstance(x.ctx, ast.Store) for x in ast.walk(mod.functions[f])):
+                            inner = None
+            if inner is not None:
+                groups.setdefault(inner, []).append(st.targets[0].id)
+    shared = {k: v for k, v in groups.items() if len(v) >= 2}
+    mine = sorted({a for v in shared.values() for a in v if a in names})
+    where = f"{short}::{cname} [{', '.join(names)}]"
+    if mine:
+        others = sorted({a for v in shared.values() if set(v) & set(mine) for a in v})
+        ctx.violated(rule, where, f"{mine} cached under the name of one wrapped function together with {others}", "each attribute has its own cache slot (a class-level alias `pvalues = pvals`, or @lazyproperty on a function of its own name)",
+                     "whichever of the attributes is read first is what the others return")
+    else:
+        ctx.held(rule, where, f"{n} factory-made class attributes; none of {list(names)} shares a cache slot", "")
